@@ -1051,8 +1051,11 @@ func (s *Stage) putFileAway(file *finalFile) (targetPath string, err error) {
 	// after putting the file away, it's possible that a crash could occur
 	// after putting the file away but before logging. On restart, there would
 	// be no knowledge that the file was received and it would be sent again.
-	s.logger.Received(file)
-	file.logged = time.Now()
+	if file.logged.IsZero() {
+		// (once: a move that fails is tried again, the record stands)
+		s.logger.Received(file)
+		file.logged = time.Now()
+	}
 
 	// Move it
 	targetName := file.name
